@@ -826,6 +826,8 @@ def run(rep, facts, tier):
         cfg.cache = {k: v for k, v in cfg.cache.items() if not (isinstance(k, tuple) and k[-1] == "deep+args")}
         check_inverse(rep, cfg, loc)
         check_select(rep, cfg, loc)
+        from . import groupops as _G
+        _G.check_core_overrides(rep, cfg, ("field",), runner=lambda pth, cfg=cfg, loc=loc: run_deep(cfg, pth, loc)[0])
         n3 = check_dom(rep, cfg, loc)
         check_exp(rep, cfg)
         counts[name] = {"operator_impls": n1, "methods": n2, "dom_sites": n3}
